@@ -31,6 +31,7 @@ const (
 	FBadChunk          = "badChunk"          // malformed chunked body
 	FChunkBareLF       = "chunkBareLF"       // LF without CR inside chunked framing
 	FChunkExt          = "chunkExt"          // chunk extension present (legal)
+	FChunkSizeWS       = "chunkSizeWS"       // whitespace between chunk size and CRLF (not in the grammar; widely tolerated, length unambiguous)
 	FBareLF            = "bareLF"            // head line terminated by LF alone
 	FBareCR            = "bareCR"            // CR not followed by LF inside the head
 	FWSBeforeColon     = "wsBeforeColon"     // whitespace between field name and colon
@@ -63,6 +64,8 @@ var FramingRejects = []string{FBadCL, FTENotChunkedFinal, FBadChunk}
 type Field struct {
 	Name  string // as on the wire
 	Value string // OWS-trimmed, obs-fold replaced by SP
+	WS    bool   // whitespace between name and colon on this line
+	Fold  bool   // value continued by obs-fold
 }
 
 // Msg is one parsed message.
@@ -201,6 +204,7 @@ func parseFields(b []byte, off int, m *Msg, trailer bool) (fields []Field, next 
 			// obs-fold: continuation of the previous field value
 			m.flag(FObsFold)
 			if len(fields) > 0 {
+				fields[len(fields)-1].Fold = true
 				fields[len(fields)-1].Value = strings.TrimRight(fields[len(fields)-1].Value+" "+string(trimOWS(line)), " ")
 			}
 			continue
@@ -212,9 +216,11 @@ func parseFields(b []byte, off int, m *Msg, trailer bool) (fields []Field, next 
 			continue
 		}
 		name := line[:c]
+		ws := false
 		if t := bytes.TrimRight(name, " \t"); len(t) != len(name) {
 			m.flag(FWSBeforeColon)
 			name = t
+			ws = true
 		}
 		if !IsToken(string(name)) {
 			m.flag(FBadFieldName)
@@ -225,7 +231,7 @@ func parseFields(b []byte, off int, m *Msg, trailer bool) (fields []Field, next 
 				m.flag(FNulOrCtl)
 			}
 		}
-		fields = append(fields, Field{Name: string(name), Value: string(val)})
+		fields = append(fields, Field{Name: string(name), Value: string(val), WS: ws})
 	}
 }
 
@@ -313,7 +319,9 @@ func parseChunked(b []byte, off int, m *Msg) (body []byte, end int, status strin
 		}
 		size, _ := strconv.ParseInt(string(line[:i]), 16, 64)
 		rest := line[i:]
-		if len(rest) > 0 {
+		if t := trimOWS(rest); len(rest) > 0 && len(t) == 0 {
+			m.flag(FChunkSizeWS)
+		} else if len(rest) > 0 {
 			// chunk-ext = *( BWS ";" BWS name [ BWS "=" BWS value ] )
 			if !validChunkExt(rest) {
 				m.flag(FBadChunk)
